@@ -5,7 +5,7 @@ import numpy as np
 from ..runner import Acc, HarnessError
 from ..refmodel import Fmt
 from .. import alphabet as al
-from ..common import Fxp, fx, codes, flags, fmt_of, reset_class_state
+from ..common import Fxp, fx, codes, flags, fmt_of, reset_class_state, build
 
 ID = 'C15'
 RULE = ('cases = (shape, format, fill pattern, function, call route {numpy function, method}, axis); the result must be an Fxp whose exact values '
@@ -123,8 +123,9 @@ def oracle(fn, kw, fa, f):
     return getattr(np, fn)(fa, **kw)
 
 
-def judge(acc, f, shape, cs, fn, route, kw, part):
-    case = {'part': part, 'fmt': list(f), 'shape': list(shape), 'codes': list(cs), 'fn': fn, 'route': route, 'kw': kw}
+def judge(acc, f, shape, cs, fn, route, kw, part, by='raw'):
+    case = {'part': part, 'fmt': list(f), 'shape': list(shape), 'codes': list(cs), 'fn': fn, 'route': route, 'kw': kw, 'by': by}
+    acc.dim('built_by', by)
     size = len(cs)
     if fn in ('prod', 'cumprod'):
         k = size if (kw.get('axis') is None or fn == 'cumprod') else shape[kw['axis']]
@@ -138,7 +139,7 @@ def judge(acc, f, shape, cs, fn, route, kw, part):
     if all(c in (f.lo, f.hi) for c in cs) or size % 2 == 1:
         acc.nontrivial += 1
     try:
-        x = Fxp(np.array(cs, dtype=np.int64).reshape(shape), f.signed, f.n_word, f.n_frac, raw=True)
+        x = build(f, cs, tuple(shape), by)
         z = run_call(fn, route, kw, x, f)
     except Exception as e:
         acc.violation('exception', case, '%s %s %s%s on %s codes %s raised %r' % (route, fn, kw, shape, f.dtype, str(cs)[:40], e), {'part': part, 'fn': fn, 'route': route})
@@ -240,6 +241,8 @@ def run_shard(sh):
         for cs in fills(f, size, sh['full'], sh['seed']):
             res = {}
             for fn, route, kw in calls(shape):
+                if route == 'np':
+                    judge(acc, f, shape, cs, fn, route, kw, 'R', 'value')
                 r = judge(acc, f, shape, cs, fn, route, kw, 'R')
                 key = (fn, tuple(sorted(kw.items())))
                 if r is not None and fn != 'sort':
@@ -276,7 +279,7 @@ def replay(case):
         f = Fmt(*case['fmt'])
         shape = tuple(case['shape'])
         kw = case['kw']
-        judge(acc, f, shape, case['codes'], case['fn'], case['route'], kw, case['part'])
+        judge(acc, f, shape, case['codes'], case['fn'], case['route'], kw, case['part'], case.get('by', 'raw'))
         if not acc.violations and case.get('fn') != 'sort':
             other = 'method' if case['route'] == 'np' else 'np'
             a = judge(Acc(), f, shape, case['codes'], case['fn'], case['route'], kw, case['part'])
